@@ -427,8 +427,31 @@ pub fn observe_case(case: &[u8]) -> String {
             family::dispatch(case.get(1).copied().unwrap_or(0) as usize, &mut v);
             v.out
         }
+        2 => observe_number(&case[1..]),
         _ => observe(&case[1..]),
     }
+}
+
+/// kind 2: a number literal through the eager number routes only (cheap: allows hundreds of thousands of
+/// literals next to rounding boundaries, where a backend-specific arithmetic helper would show)
+pub fn observe_number(input: &[u8]) -> String {
+    use sonic_rs::JsonValueTrait;
+    let mut o = String::new();
+    match sonic_rs::from_slice::<f64>(input) {
+        Ok(f) => o.push_str(&format!("{:#x}", f.to_bits())),
+        Err(e) => o.push_str(&err_repr(&e)),
+    }
+    o.push('|');
+    match sonic_rs::from_slice::<f32>(input) {
+        Ok(f) => o.push_str(&format!("{:#x}", f.to_bits())),
+        Err(e) => o.push_str(&err_repr(&e)),
+    }
+    o.push('|');
+    match sonic_rs::from_slice::<Value>(&[b"[", input, b" ]"].concat()) {
+        Ok(v) => o.push_str(&format!("{:?}|{}", v[0].as_f64().map(f64::to_bits), sonic_rs::to_string(&v).unwrap_or_else(|e| err_repr(&e)))),
+        Err(e) => o.push_str(&err_repr(&e)),
+    }
+    o
 }
 
 const NSHARDS: usize = 16;
@@ -528,6 +551,35 @@ fn stream(seed: u64, quick: bool, shard: usize, emit: &mut dyn FnMut(&[u8])) {
         let mut c = vec![0u8];
         c.extend_from_slice(&crate::lazyhelp::gen_bracket_stress(&mut src));
         emit(&c);
+    }
+    // number literals next to rounding boundaries: the midpoint of two adjacent doubles of every binary
+    // exponent, cut to 15..25 and more digits, extended, re-spelt (C07's halfway list) — these are the inputs
+    // on which the extended-precision product of the float parser needs its second multiplication and its
+    // carry, i.e. where a backend-specific arithmetic helper shows
+    let per_exp = if quick { 3 } else { 24 };
+    for be in (shard as u64..2047).step_by(NSHARDS) {
+        let bytes = super::c02::pseudo_bytes(seed ^ 0x17_7000, be, 8 * per_exp + 8);
+        let mut src = Src::new(&bytes);
+        let mut mantissas: Vec<u64> = vec![0, (1u64 << 52) - 1];
+        for _ in 0..per_exp {
+            mantissas.push(src.u64() & ((1u64 << 52) - 1));
+        }
+        for m in mantissas {
+            let a = f64::from_bits((be << 52) | m);
+            let b = super::c07::next_up(a);
+            if !b.is_finite() {
+                continue;
+            }
+            let mid = super::c07::midpoint_decimal(a, b);
+            super::c07::perturbations(&mid, &mut |lit| {
+                if lit.len() <= 120 {
+                    let mut c = vec![2u8];
+                    c.extend_from_slice(lit);
+                    emit(&c);
+                }
+                true
+            });
+        }
     }
     // whitespace runs of every length around tokens (skip_space paths)
     for run in (shard..200).step_by(NSHARDS) {
